@@ -11,24 +11,24 @@ import (
 // C03: the inverted index answers like an exhaustive scan, and never lags behind the commands.
 
 type c03Index struct {
-	Built    bool      `json:"built"`
-	N        int       `json:"n"`
-	Terms    [][]int   `json:"terms"`
-	DF       []int     `json:"df"`
+	Built    bool       `json:"built"`
+	N        int        `json:"n"`
+	Terms    [][]int    `json:"terms"`
+	DF       []int      `json:"df"`
 	Postings [][][5]int `json:"postings"` // per term: (doc, tf cmd, desc, keys, tags)
-	DocLens  [][4]int  `json:"doc_lens"`
-	AvgLen   [4]string `json:"avg_len"`
+	DocLens  [][4]int   `json:"doc_lens"`
+	AvgLen   [4]string  `json:"avg_len"`
 }
 
 type c03Step struct {
-	Op      string  `json:"op"` // load personal update append
-	Cmds    []eCmd  `json:"cmds,omitempty"`
-	Query   []int   `json:"q"`
-	Opts    eOpts   `json:"opts"`
-	Got     []eRes  `json:"got"`
-	Fresh   []eRes  `json:"fresh"`
-	After   [][]int `json:"after"` // command strings held after the op
-	Expect  [][]int `json:"expect"`
+	Op     string  `json:"op"` // load personal update append
+	Cmds   []eCmd  `json:"cmds,omitempty"`
+	Query  []int   `json:"q"`
+	Opts   eOpts   `json:"opts"`
+	Got    []eRes  `json:"got"`
+	Fresh  []eRes  `json:"fresh"`
+	After  [][]int `json:"after"` // command strings held after the op
+	Expect [][]int `json:"expect"`
 }
 
 type c03Case struct {
